@@ -65,7 +65,12 @@ def r_term(t, st):
         return "?" + st["ren"].get(t[1], t[1])
     if t[0] == "u":
         if st["prefix"] and t[1].startswith(EX):
-            return "ex:" + t[1][len(EX) :]
+            local = t[1][len(EX) :]
+            if st["prefix"] is True:
+                return "ex:" + local
+            # two prefixes for one namespace in one query: both declared, or one declared and one bound on the graph
+            first = "gb:" if st["prefix"] == "graphbound" else "ex:"
+            return (first if sum(map(ord, local)) % 2 else "ey:") + local
         if st.get("ns") and t[1].startswith(EX):
             return "<" + st["ns"] + t[1][len(EX) :] + ">"
         return "<" + t[1] + ">"
@@ -125,7 +130,7 @@ def r_elems(elems, st):
 
 
 def r_query(q, st, sub=False):
-    head = "" if sub or not st["prefix"] or st.get("undeclared") else f"PREFIX ex: <{EX}>\n"
+    head = "" if sub or not st["prefix"] or st.get("undeclared") else _PREFIX_HEADS[st["prefix"]]
     if q.get("agg"):
         sel = " ".join(r_term(V(v), st) for v in q["group"]) + f" (COUNT({r_term(V(q['agg']), st)}) AS {r_term(V('n'), st)})"
     elif q["select"] == "*":
@@ -140,6 +145,14 @@ def r_query(q, st, sub=False):
     if q.get("limit") is not None:
         s += f" LIMIT {q['limit']}"
     return s
+
+
+_PREFIX_HEADS = {
+    True: f"PREFIX ex: <{EX}>\n",
+    "two": f"PREFIX ex: <{EX}>\nPREFIX ey: <{EX}>\n",
+    "two-rev": f"PREFIX ey: <{EX}>\nPREFIX ex: <{EX}>\n",
+    "graphbound": f"PREFIX ey: <{EX}>\n",
+}
 
 
 def text_of(q, prefix=False, ren=None, undeclared=False, ns=None):
@@ -276,7 +289,7 @@ def _rewrites(g, q):
     # consistent renaming
     ren = {"s": "subj", "o": "x9", "x": "o2", "z": "s1", "p": "pp", "k": "kk", "w": "ww", "bv": "b1", "vv": "v1", "n": "cnt"}
     out.append(("rename-vars", copy.deepcopy(q), ren, False))
-    out.append(("prefix", copy.deepcopy(q), None, True))
+    out.append(("prefix", copy.deepcopy(q), None, g.choice([True, True, "two", "two-rev", "graphbound"])))
     return out
 
 
@@ -373,6 +386,7 @@ def execute(trace, ctx):
         "auditable": load(Graph(AuditableStore(Memory())), triples),
         "other": load(Graph(Memory()), [(T(s), T(p), T(o)) for s, p, o in cfg["data2"]]),
     }
+    graphs["memory"].bind("gb", EX)  # prefix style "graphbound" relies on it; nothing else spells gb:
     parts = [Graph(Memory()) for _ in range(3)]
     for t, k in zip(triples, cfg["split"]):
         parts[k % 3].add(t)
